@@ -103,4 +103,4 @@ class RestrictedFunction(MDOFunction):
         """
         x_full = insert(x_vect, self._restriction_indices, self.restriction_values)
         jac = self._function.jac(x_full)
-        return delete(jac, self._restriction_indices, axis=0)
+        return delete(jac, self._restriction_indices, axis=-1)
